@@ -47,7 +47,9 @@ type ownEntry struct {
 	ts      uint64
 	precert bool
 	cert    []byte // x509 entry certificate / submitted precertificate
+	ikh     []byte // precert entry: issuer key hash
 	tbs     []byte
+	ext     []byte // CtExtensions
 	chain   [][]byte
 }
 
@@ -110,14 +112,14 @@ func ownDecode(li, extra []byte) (*ownEntry, bool) {
 		o.chain = ownChain(x)
 	case 1:
 		o.precert = true
-		r.take(32)
+		o.ikh = r.take(32)
 		o.tbs = r.opaque(3, 1)
 		o.cert = x.opaque(3, 1)
 		o.chain = ownChain(x)
 	default:
 		return nil, false
 	}
-	r.opaque(2, 0) // extensions
+	o.ext = r.opaque(2, 0) // extensions
 	if !r.ok || !x.ok || len(r.b) != 0 || len(x.b) != 0 {
 		return nil, false
 	}
@@ -149,7 +151,7 @@ func entrySpecs(r randT, fx *fixtures) []entrySpec {
 	leafType[1] = 1
 	version := append([]byte{}, xLeaf...)
 	version[0] = 1
-	return []entrySpec{
+	specs := []entrySpec{
 		{"x509", xLeaf, xExtra},
 		{"precert", pLeaf, pExtra},
 		{"x509-empty-chain", xLeaf, encChain(nil)},
@@ -169,6 +171,24 @@ func entrySpecs(r randT, fx *fixtures) []entrySpec {
 		{"tbs-is-junk", encLeaf(ts, junkTBS, nil), pExtra},
 		{"inner-length-overruns", cat(xLeaf[:12], u24(len(fx.leaf.DER)+50), fx.leaf.DER, u16(0)), xExtra},
 	}
+	// (genOthers indexes the list above by position: new classes go below)
+	return append(specs, quirkSpecs(r, fx)...)
+}
+
+const quirkPrefix = "tolerated-quirk:"
+
+// quirkSpecs: well-formed entries whose certificate / precertificate TBS parses with a NON-fatal
+// X.509 error only (the parser's tolerated quirks, probed in buildQuirks)
+func quirkSpecs(r randT, fx *fixtures) []entrySpec {
+	var out []entrySpec
+	chain := [][]byte{fx.inter.DER, fx.root.DER}
+	for _, q := range fx.quirks {
+		out = append(out, entrySpec{quirkPrefix + "x509:" + q.name, encLeaf(pickU64(r), &entry{cert: q.cert}, randBytes(r, r.Intn(2)*r.Intn(4))), encChain(chain[:r.Intn(3)])})
+		if q.tbs != nil {
+			out = append(out, entrySpec{quirkPrefix + "precert:" + q.name, encLeaf(pickU64(r), q.tbs, nil), encPrecertExtra(q.pre, chain[:1+r.Intn(2)])})
+		}
+	}
+	return out
 }
 
 func entriesJSON(es []entrySpec) []byte {
@@ -241,12 +261,20 @@ func sameChain(a []ct.ASN1Cert, b [][]byte) bool {
 	return true
 }
 
-func casesEntries(t *testing.T, start, end int64, v variant) []lib.Case {
+// casesEntries: GetEntries and GetRawEntries over the same scripted response, each on a fresh
+// client (sess == nil) or as the next two calls of a session
+func casesEntries(t *testing.T, sess *session, start, end int64, v variant, methods ...bool) []lib.Case {
 	var out []lib.Case
-	for _, raw := range []bool{false, true} {
+	if len(methods) == 0 {
+		methods = []bool{false, true} // GetEntries, GetRawEntries
+	}
+	for _, raw := range methods {
 		bodies := newBodyTable()
 		sc := &script{items: finish(append([]wireItem{}, v.items...), bodies)}
-		lc := newClient(sc, nil, false)
+		if sess != nil {
+			sess.use(sc)
+		}
+		lc := sess.plain(sc, nil, false)
 		var entries []ct.LogEntry
 		var rawRsp *ct.GetEntriesResponse
 		var err error
@@ -316,13 +344,18 @@ func casesEntries(t *testing.T, start, end int64, v variant) []lib.Case {
 					switch {
 					case !good:
 						ok, note = false, fmt.Sprintf("GetEntries: entry %d accepted although (leaf_input, extra_data) is not a well-formed entry %s", i, where)
+					case e.Leaf.TimestampedEntry == nil:
+						ok, note = false, fmt.Sprintf("GetEntries: entry %d is not filled in (no timestamped entry) although the call succeeded %s", i, where)
 					case e.Index != start+int64(i):
 						ok, note = false, fmt.Sprintf("GetEntries: entry %d has index %d %s", i, e.Index, where)
-					case e.Leaf.TimestampedEntry == nil || e.Leaf.TimestampedEntry.Timestamp != o.ts || !sameChain(e.Chain, o.chain):
+					case e.Leaf.TimestampedEntry.Timestamp != o.ts || !sameChain(e.Chain, o.chain) || !bytes.Equal(e.Leaf.TimestampedEntry.Extensions, o.ext) ||
+						(e.Leaf.TimestampedEntry.EntryType == ct.PrecertLogEntryType) != o.precert || (e.Leaf.TimestampedEntry.EntryType == ct.X509LogEntryType) == o.precert:
 						ok, note = false, fmt.Sprintf("GetEntries: entry %d inconsistent with leaf_input / extra_data %s", i, where)
-					case !o.precert && (e.X509Cert == nil || !bytes.Equal(e.X509Cert.Raw, o.cert) || e.Precert != nil):
+					case !o.precert && (e.X509Cert == nil || !bytes.Equal(e.X509Cert.Raw, o.cert) || e.Precert != nil ||
+						e.Leaf.TimestampedEntry.X509Entry == nil || !bytes.Equal(e.Leaf.TimestampedEntry.X509Entry.Data, o.cert)):
 						ok, note = false, fmt.Sprintf("GetEntries: entry %d certificate is not the leaf's %s", i, where)
-					case o.precert && (e.Precert == nil || !bytes.Equal(e.Precert.Submitted.Data, o.cert) || e.Precert.TBSCertificate == nil || !bytes.Equal(e.Precert.TBSCertificate.RawTBSCertificate, o.tbs)):
+					case o.precert && (e.Precert == nil || !bytes.Equal(e.Precert.Submitted.Data, o.cert) || e.Precert.TBSCertificate == nil || !bytes.Equal(e.Precert.TBSCertificate.RawTBSCertificate, o.tbs) ||
+						!bytes.Equal(e.Precert.IssuerKeyHash[:], o.ikh) || e.X509Cert != nil):
 						ok, note = false, fmt.Sprintf("GetEntries: entry %d precertificate is not the entry's %s", i, where)
 					}
 				}
@@ -330,12 +363,20 @@ func casesEntries(t *testing.T, start, end int64, v variant) []lib.Case {
 			certs, tbss := classTables(m.Entries)
 			coq = fmt.Sprintf("CGetEntries %s %s %s %s %s %s", lib.Z(start), lib.Z(end), coqAttempt(att, jsonCoq), lib.List(certs), lib.List(tbss), obsCoq)
 		}
+		if !ok {
+			note += sess.after()
+		}
+		hist := sess.history()
+		htags := sess.tags()
+		if sess != nil {
+			sess.did(fmt.Sprintf("%s(%d,%d) %s", method, start, end, v.name), obs.Class)
+		}
 		out = append(out, lib.Case{
 			Coq:    coq,
-			Input:  map[string]interface{}{"method": method, "start": start, "end": end, "response": v.name, "script": sc.items, "attempts": atts},
+			Input:  map[string]interface{}{"method": method, "start": start, "end": end, "response": v.name, "script": sc.items, "attempts": atts, "history": hist},
 			Impl:   obs,
 			PropOK: ok, Note: note,
-			Tags: []string{"method:" + method, "get-entries:" + v.name, "result:" + obs.Class, fmt.Sprintf("get-entries:range-ok=%v", !badRange)},
+			Tags: append([]string{"method:" + method, "get-entries:" + v.name, "result:" + obs.Class, fmt.Sprintf("get-entries:range-ok=%v", !badRange)}, htags...),
 		})
 	}
 	return out
@@ -351,7 +392,13 @@ func normEntries(es []mLeafEntry) []mLeafEntry {
 
 func genEntries(t *testing.T, r randT, w *lib.Writer, fx *fixtures, rep int) {
 	add := func(start, end int64, v variant) {
-		for _, c := range casesEntries(t, start, end, v) {
+		for _, c := range casesEntries(t, nil, start, end, v) {
+			w.Add(c)
+		}
+	}
+	// the decoding method only (GetRawEntries does not look into the entries)
+	addDec := func(start, end int64, v variant) {
+		for _, c := range casesEntries(t, nil, start, end, v, false) {
 			w.Add(c)
 		}
 	}
@@ -361,8 +408,32 @@ func genEntries(t *testing.T, r randT, w *lib.Writer, fx *fixtures, rep int) {
 	// each entry class alone, and between two good entries
 	for _, s := range specs {
 		st := int64(r.Intn(1000))
+		if strings.HasPrefix(s.name, quirkPrefix) {
+			addDec(st, st, okv("one:"+s.name, entriesJSON([]entrySpec{s})))
+			if lib.Tier() != "quick" || r.Intn(3) == 0 {
+				addDec(st, st+2, okv("middle:"+s.name, entriesJSON([]entrySpec{specs[0], s, specs[1]})))
+			}
+			continue
+		}
 		add(st, st, okv("one:"+s.name, entriesJSON([]entrySpec{s})))
 		add(st, st+2, okv("middle:"+s.name, entriesJSON([]entrySpec{specs[0], s, specs[1]})))
+	}
+	// tolerated quirks at every position of a longer answer, several in one answer, and before
+	// an entry that cannot be decoded (no partial result)
+	var qs []entrySpec
+	for _, s := range specs {
+		if strings.HasPrefix(s.name, quirkPrefix) {
+			qs = append(qs, s)
+		}
+	}
+	for k := 0; k < lib.Count(2, 6); k++ {
+		q, q2 := qs[r.Intn(len(qs))], qs[r.Intn(len(qs))]
+		st := int64(r.Intn(100000))
+		nm := strings.TrimPrefix(q.name, quirkPrefix)
+		addDec(st, st+2, okv("first:"+q.name, entriesJSON([]entrySpec{q, specs[1], specs[0]})))
+		addDec(st, st+2, okv("last:"+q.name, entriesJSON([]entrySpec{specs[0], specs[1], q})))
+		addDec(st, st+3, okv("several:"+q.name+"+"+strings.TrimPrefix(q2.name, quirkPrefix), entriesJSON([]entrySpec{q, specs[0], q2, q})))
+		add(st, st+1, okv("quirk-then-junk:"+nm, entriesJSON([]entrySpec{q, specs[15]})))
 	}
 	// count mismatches and index arithmetic
 	three := entriesJSON([]entrySpec{specs[0], specs[1], specs[2]})
